@@ -574,3 +574,21 @@ pub fn schema_bitvec<S: Src>(s: &mut S) {
         _ => { let mut v = bit_set08::BitSet::new(); v.insert(0); v.insert(33); f(&v, 0, "bit_set 0.8 BitSet") }
     }
 }
+
+// ---------------------------------------------------------------------------------------------------------------
+// C03: an enum that reaches exactly 256 variants by appending a versioned variant still reads one-byte discriminants.
+pub fn evolve_enum256<S: Src>(s: &mut S) {
+    use crate::native_enum256::{E255Old, E256New};
+    let (old, want) = match s.below(3) { 0 => (E255Old::V0, E256New::V0), 1 => (E255Old::V1, E256New::V1), _ => (E255Old::V254, E256New::V254) };
+    let with_schema = s.bool();
+    let mut file: Vec<u8> = Vec::new();
+    assert!(save_any(&mut file, 0, &old, with_schema).is_ok());
+    match load_any::<E256New, _>(&mut &file[..], 1, with_schema) {
+        Ok(v) => assert!(v == want, "C03: variants present in both versions keep their identity"),
+        Err(e) => panic!("C03: data saved before the 256th variant was appended must load ({}): {:?}", if with_schema { "with schema" } else { "schema-less" }, e),
+    }
+    // and the new definition at its own version: 256 variants still use a one-byte discriminant
+    let mut f2: Vec<u8> = Vec::new();
+    assert!(savefile::Serializer::bare_serialize(&mut f2, 1, &E256New::V255).is_ok());
+    assert!(f2 == vec![255u8], "C02/C03: the 256th variant is written as the single byte 255");
+}
